@@ -147,6 +147,24 @@ def main(chk):
     pm.add_func([I32, I32, I32], [], [], [('local.get', 0), ('local.get', 1), ('local.get', 2), ('memory.fill',)], export='fill')
     pm.add_func([I32, I32, I32], [], [], [('local.get', 0), ('local.get', 1), ('local.get', 2), ('memory.init', 0)], export='init')
     bases.append(('prefixed-misc', pm.encode(), None))
+    # tiny modules whose sections have one- or two-byte payloads in the minimal encoding (start index 0, data count 0, zero-sized
+    # memory / table, a single nullary type): the minimal form is the BASE here and every padded form is a variant
+    for ti in range(6):
+        tm = Module()
+        if ti in (1, 4):
+            tm.import_func('env', 'note', [], [])          # start function = imported function 0
+        tm.globals.append((I32, True, [('i32.const', 0)]))
+        f0 = tm.add_func([], [], [], [('i32.const', 42), ('global.set', 0)])
+        tm.add_func([], [I32], [], [('global.get', 0)], export='get')
+        tm.start = 0
+        if ti in (2, 3, 4):
+            tm.mems.append((0 if ti != 3 else 1, None, False))
+            tm.datacount = True                             # data count section present with count 0
+        if ti in (3, 5):
+            tm.tables.append((0, None))
+        if ti == 5:
+            tm.force_empty_sections |= {9, 11}
+        bases.append(('tiny%d' % ti, tm.encode(), None))
     nvar = 8 if quick else 18
     root = env.subdir('c08')
 
